@@ -31,8 +31,9 @@ def wgraph_tokens(g):
     return toks
 
 
-def world_line(inv, adopt):
-    """driver 'world' input for one invocation (None if the manifest did not load)"""
+def world_line(inv, adopt, locs=False):
+    """driver 'world' input for one invocation (None if the manifest did not load); locs: the `file:line` of every step
+    after each phase's events (driver suite 'explain')"""
     if not inv.graphs or inv.graphs[0].error:
         return None
     toks = ["FS", str(len(inv.files0))]
@@ -83,7 +84,50 @@ def world_line(inv, adopt):
                 evs.append("nr %d" % awaiting)
                 awaiting = None
         toks += ["PHASE", "1" if grp["reloaded_group"] else "0"] + wgraph_tokens(g) + ["EV", str(len(evs))] + evs
+        if locs:
+            toks += ["LOC", str(len(g.locs))] + [hexs(l) for l in g.locs]
     return " ".join(toks)
+
+
+def explain_world(drv, items):
+    """items: list of (inv, adopt) that ran with `-d explain` -> per item the model's [(step, [messages])] or None"""
+    lines, idx = [], []
+    for i, (inv, adopt) in enumerate(items):
+        l = world_line(inv, adopt, locs=True)
+        if l is not None:
+            lines.append(l)
+            idx.append(i)
+    res = run_lines_sharded([drv, "explain"], lines)
+    out = [None] * len(items)
+    for i, r in zip(idx, res):
+        if not r.startswith("ok"):
+            out[i] = r
+            continue
+        ex = []
+        for ent in r[2:].split():
+            b, _, msgs = ent.partition(":")
+            ex.append((int(b), [unhexs(m) for m in msgs.split(",")] if msgs else []))
+        out[i] = ex
+    return out
+
+
+def check_explain(run, where, inv, model):
+    """what `-d explain` logged, verdict by verdict, against Model/Explain.v; plus monitors on the messages themselves"""
+    if model is None:
+        return True
+    if isinstance(model, str):
+        run.tie("explain replay: %s" % model[:80], where)
+        return False
+    got = inv.explained
+    if inv.stray_logs:
+        run.tie("messages logged outside a dirtiness check", dict(where, messages=[m.decode("utf-8", "replace")[:120] for m in inv.stray_logs]))
+        return False
+    if got != model:
+        k = next((i for i, (a, b) in enumerate(zip(got, model)) if a != b), min(len(got), len(model)))
+        run.tie("`-d explain` messages differ from the model's at verdict %d" % k,
+                dict(where, implementation=repr(got[k:k + 1])[:500], model=repr(model[k:k + 1])[:500]))
+        return False
+    return True
 
 
 def replay_world(drv, items):
